@@ -23,6 +23,9 @@ CHECKS = {
     "C13": ("pbt-values", "generated programs: memcmp round trip over all 8/16-bit values and float bit patterns, all 8x8-bit operand pairs and rapidcheck/special grids for wider reps, result type pinned by static_assert against the raw operator, accepted by all six configurations; layout facts as static_assert grids over units x reps (Hypothesis-generated compound units)",
             "Exploration: exhaustive where the domain is small (8-bit operand pairs, 16-bit values, 2^32 float patterns in the thorough tier), structured specials + random draws otherwise; one known finding (F5) is excluded by construction and re-checked by a pinned reproducer.",
             "trusts the raw operators compiled by the same compiler as oracle; NaN results compared as both-NaN", "4/C13"),
+    "C08": ("pbt-values", "generated (unit pair, rep pair) instances from the gcd-unit model; exhaustive 8-bit x 8/16-bit operand pairs, enumerated edge grids and rapidcheck draws (equal / off-by-one / overflow-edge classes) vs 128-bit exact ordering, sum, difference, remainder; <=> under C++20; float instances with 4/8-ulp bands; negative probes for forms the policy must refuse",
+            "Exploration: exact agreement on billions of operand pairs per run for the sampled instances, under ASan+UBSan; instances restricted to those the conversion policy accepts (model-predicted, and that prediction is itself checked by compiling).",
+            "trusts 128-bit integer oracle and long double for the floating band; precondition: scaled operands fit the common rep", "4/C08"),
 }
 ENGINES = [
     {"name": "pbt-programs", "path": "auverif/hyp.py", "kind_free_text": "Hypothesis-generated translation units judged by compiler verdict / static_assert / program output against an independent Python model",
